@@ -25,7 +25,11 @@ pub mod xmlnode_stub {
     pub struct CodeOrProperty { pub code: BalanceCodeValue }
     pub struct BalanceCodeValue { pub value: super::xmlnode::BalanceCode }
     /// stand-in for xmlnode::TransactionDetails (one detail of a batched entry)
-    pub struct TransactionDetails { pub refs: References, pub amount: super::xmlnode::Amount, pub credit_or_debit: CreditDebitIndicator }
+    pub struct TransactionDetails { pub refs: References, pub amount: super::xmlnode::Amount, pub credit_or_debit: CreditDebitIndicator, pub amount_details: Option<AmountDetails> }
+    pub struct AmountDetails { pub transaction: AmountWithExchange }
+    pub struct AmountWithExchange { pub amount: super::xmlnode::Amount, pub currency_exchange: Option<CurrencyExchange> }
+    pub struct CurrencyExchange { pub source_currency: String, pub target_currency: String, pub exchange_rate: ExchangeRate }
+    pub struct ExchangeRate { pub value: super::Decimal }
 }
 /// extract::Fragment as the importer reads it
 pub struct Fragment { pub cleared: bool, pub payee: Option<&'static str>, pub account: Option<&'static str> }
@@ -48,3 +52,7 @@ pub enum ImportError { InvalidConfig(&'static str), Unimplemented(&'static str),
 pub fn string_ne(a: &String, b: &String) -> (r: bool) ensures r == (a@ != b@) { unimplemented!() }
 #[verifier::external_body]
 pub fn string_clone(a: &String) -> (r: String) ensures r@ == a@ { unimplemented!() }
+
+/// derive(PartialEq) on xmlnode::Amount (`a != b`): same currency text and numerically equal value (ASSUMED: String and Decimal equality)
+#[verifier::external_body]
+pub fn amount_ne(a: &xmlnode::Amount, b: &xmlnode::Amount) -> (r: bool) ensures r == !(a.currency@ == b.currency@ && a.value.val() == b.value.val()) { unimplemented!() }
